@@ -155,6 +155,22 @@ func Docs() map[string]func() *sbom.Document {
 			return d
 		},
 		"empty": func() *sbom.Document { return sbom.NewDocument() },
+		// identifier value shapes: well-formed, SPDX-style extra slash, qualifiers+subpath, upper case, truncated, not a purl
+		"identifier-shapes": func() *sbom.Document {
+			d := sbom.NewDocument()
+			d.Metadata.Id = "shapes"
+			for i, p := range []string{"pkg:apk/w/a@1", "pkg:/apk/w/b@1", "pkg://deb/d/c@2", "pkg:apk/w/d@1?arch=x&distro=y#sub/path", "PKG:APK/W/E@1", "pkg:apk", "pkg:", "not-a-purl", ""} {
+				id := fmt.Sprintf("n%d", i)
+				n := &sbom.Node{Id: id, Name: id, Identifiers: map[int32]string{int32(sbom.SoftwareIdentifierType_PURL): p, int32(sbom.SoftwareIdentifierType_CPE22): "cpe:/a:x:" + id}}
+				if i == 5 {
+					n.Type = sbom.Node_FILE
+				}
+				d.NodeList.Nodes = append(d.NodeList.Nodes, n)
+			}
+			d.NodeList.Edges = []*sbom.Edge{{From: "n0", Type: sbom.Edge_contains, To: []string{"n1", "n2", "n3"}}, {From: "n1", Type: sbom.Edge_dependsOn, To: []string{"n4", "n0"}}}
+			d.NodeList.RootElements = []string{"n0"}
+			return d
+		},
 		// size class: every repeated field holds 20 unsorted entries, one edge has 40 unsorted targets
 		"wide": func() *sbom.Document {
 			d := sbom.NewDocument()
@@ -245,7 +261,9 @@ func Ops(d *sbom.Document) []Op {
 			add(fmt.Sprintf("NodeList.NodeDescendants(%s,%d)", id, dp), func(d, _ *sbom.Document) { d.NodeList.NodeDescendants(id, dp) })
 		}
 		add("NodeList.GetMatchingNode(nodes["+fmt.Sprint(i)+"])", func(d, _ *sbom.Document) { _, _ = d.NodeList.GetMatchingNode(d.NodeList.Nodes[i]) })
-		add("NodeList.GetMatchingNode(copy)", func(d, _ *sbom.Document) { _, _ = d.NodeList.GetMatchingNode(proto.Clone(d.NodeList.Nodes[i]).(*sbom.Node)) })
+		add("NodeList.GetMatchingNode(copy)", func(d, _ *sbom.Document) {
+			_, _ = d.NodeList.GetMatchingNode(proto.Clone(d.NodeList.Nodes[i]).(*sbom.Node))
+		})
 		add("NodeList.GetNodesByName", func(d, _ *sbom.Document) { d.NodeList.GetNodesByName(d.NodeList.Nodes[i].Name) })
 	}
 	for i := range nl.Edges {
@@ -260,7 +278,9 @@ func Ops(d *sbom.Document) []Op {
 				add(fmt.Sprintf("%s.Equal(edges[%d])", tag, j), func(d, _ *sbom.Document) { d.NodeList.Edges[i].Equal(d.NodeList.Edges[j]) })
 			}
 		}
-		add("NodeList.GetEdgeByType", func(d, _ *sbom.Document) { d.NodeList.GetEdgeByType(d.NodeList.Edges[i].From, d.NodeList.Edges[i].Type) })
+		add("NodeList.GetEdgeByType", func(d, _ *sbom.Document) {
+			d.NodeList.GetEdgeByType(d.NodeList.Edges[i].From, d.NodeList.Edges[i].Type)
+		})
 	}
 	add("NodeList.Copy", func(d, _ *sbom.Document) { d.NodeList.Copy() })
 	add("NodeList.Equal(self)", func(d, _ *sbom.Document) { d.NodeList.Equal(d.NodeList) })
@@ -276,7 +296,40 @@ func Ops(d *sbom.Document) []Op {
 		d.NodeList.GetNodesByIdentifier("cpe23", "x")
 	})
 	add("NodeList.GetNodesByPurlType", func(d, _ *sbom.Document) { d.NodeList.GetNodesByPurlType("apk") })
-	add("NodeList.NodeGraph(missing)", func(d, _ *sbom.Document) { d.NodeList.NodeGraph("nope"); d.NodeList.NodeSiblings("nope"); d.NodeList.NodeDescendants("nope", 2) })
+	// query arguments derived from the operand's own content: every purl type and identifier value it holds
+	seenQ := map[string]bool{}
+	for _, n := range nl.Nodes {
+		var tys []int
+		for ty := range n.Identifiers {
+			tys = append(tys, int(ty))
+		}
+		sort.Ints(tys) // deterministic enumeration order across workers
+		for _, tyi := range tys {
+			ty, val := int32(tyi), n.Identifiers[int32(tyi)]
+			if !seenQ["id:"+val] && len(seenQ) < 40 {
+				seenQ["id:"+val] = true
+				tyName := strings.ToLower(sbom.SoftwareIdentifierType(ty).String())
+				add(fmt.Sprintf("NodeList.GetNodesByIdentifier(%s,%q)", tyName, val), func(d, _ *sbom.Document) { d.NodeList.GetNodesByIdentifier(tyName, val) })
+			}
+			if ty != int32(sbom.SoftwareIdentifierType_PURL) {
+				continue
+			}
+			rest := strings.TrimLeft(strings.TrimPrefix(strings.ToLower(val), "pkg:"), "/")
+			pt, _, _ := strings.Cut(rest, "/")
+			for _, q := range []string{pt, strings.ToUpper(pt)} {
+				q := q
+				if !seenQ["pt:"+q] && len(seenQ) < 40 {
+					seenQ["pt:"+q] = true
+					add(fmt.Sprintf("NodeList.GetNodesByPurlType(%q)", q), func(d, _ *sbom.Document) { d.NodeList.GetNodesByPurlType(q) })
+				}
+			}
+		}
+	}
+	add("NodeList.NodeGraph(missing)", func(d, _ *sbom.Document) {
+		d.NodeList.NodeGraph("nope")
+		d.NodeList.NodeSiblings("nope")
+		d.NodeList.NodeDescendants("nope", 2)
+	})
 	for _, f := range Formats() {
 		f := f
 		add("serialize:"+string(f), func(d, _ *sbom.Document) { Serialize(d, f) })
